@@ -20,6 +20,31 @@ def perform(op):
     try:
         if kind == "create":
             impl.pin_clock(1_700_000_000)
+            if op.get("interactive"):
+                # the interactive front end: answers typed at its prompts, in order
+                import builtins
+                from harness.common import quiet
+                from torrentfile import interactive
+                answers = iter(op["answers"])
+                old_input = builtins.input
+                builtins.input = lambda *_a: next(answers)
+                try:
+                    with quiet():
+                        creator = interactive.create_torrent()
+                finally:
+                    builtins.input = old_input
+                out = str(creator.outfile)
+                return {"raw": open(out, "rb").read().hex(), "out": os.path.relpath(out)}
+            if op.get("config"):
+                # the configuration file route (`create --config --config-path <ini>`)
+                ini = op["out"] + ".ini"
+                with open(ini, "w") as fd:
+                    fd.write("[config]\n" + "".join(f"{k} = {v}\n" for k, v in op["config"].items()))
+                ver = {"v1": "1", "a2": "2", "a3": "3"}[op["kind"]]
+                impl.cli(op.get("flags", []) + ["create", "--prog", "0", "--config", "--config-path", ini,
+                                                "--meta-version", ver, "-o", op["out"], op["path"]])
+                os.remove(ini)
+                return {"raw": open(op["out"], "rb").read().hex()}
             if op.get("cli"):
                 ver = {"v1": "1", "a2": "2", "a3": "3"}[op["kind"]]
                 plarg = ["--piece-length", str(op["pl"])] if op.get("pl") else []
